@@ -66,13 +66,18 @@ def roundtrip(tree: Any, ctx: Optional[Ctx], env: Optional[Dict[str, Any]]):
         except Undefined:
             return problems, asked, proved, None
         asked += 1
+        if a[1].eq(b[1]) and (a[0] != "eq" or a[2].eq(b[2])):
+            # the re-parsed tree denotes syntactically the same term: nothing for the solver to do
+            return problems, asked, proved + 1, None
         if a[0] == "eq":
-            dom = a[3] + b[3] + powr_axioms(a[1], a[2], b[1], b[2])
+            dom = a[3] + b[3]
+            ax = powr_axioms(a[1], a[2], b[1], b[2])
             cond = z3.Xor(a[1] == a[2], b[1] == b[2])
         else:
-            dom = a[3] + b[3] + powr_axioms(a[1], b[1])
+            dom = a[3] + b[3]
+            ax = powr_axioms(a[1], b[1])
             cond = a[1] != b[1]
-        r, m = ctx.query(*dom, cond)
+        r, m = ctx.query_lazy(dom + [cond], ax)
         if r == "unsat":
             proved += 1
         elif r == "sat":
